@@ -39,6 +39,7 @@ type docGenOpts struct {
 	AllowLong               bool
 	DashLines               bool // lines starting with '-' (forces dash-escaping when clearsigned)
 	NoTrailingBlanksOnLines bool
+	ExoticBlanks            bool // continuation lines made of non-ASCII white space only
 }
 
 var fieldNameStock = []string{"Package", "Version", "Source", "Description", "Depends", "X-Foo", "Maintainer", "Section", "Files", "Checksums-Sha256", "Homepage", "a", "B9", "X-Very-Long-Field-Name-0123456789"}
@@ -152,6 +153,15 @@ func genDoc(t *rt.Tape, o docGenOpts, r *rt.Run) ([]mPara, []byte, []int) {
 					sb.WriteString(ind + "." + trail + nl)
 					f.Lines = append(f.Lines, "")
 					r.Probe("dot-line")
+					continue
+				}
+				if o.ExoticBlanks && t.Bool(1, 12, "c.exoticblank") {
+					// a continuation line that holds nothing but white space of the
+					// non-ASCII kind (or a form feed / vertical tab): an empty logical line
+					ws := []string{"\u00a0", "\f", "\v", "\u0085", "\u2003", "\u3000", " \u00a0 "}[t.Draw(7, "c.exoticblank.kind")]
+					sb.WriteString(ind + ws + nl)
+					f.Lines = append(f.Lines, "")
+					r.Probe("continuation-line-of-exotic-white-space-only")
 					continue
 				}
 				keep := []string{"", " ", "   ", "\t"}[t.Weighted([]int{5, 2, 1, 1}, "c.keep")]
